@@ -18,6 +18,7 @@ mod tex;
 mod target;
 mod raster;
 mod clip;
+mod pipe;
 
 use std::io::{BufRead, BufWriter, Write};
 
@@ -64,6 +65,7 @@ fn subsystem(name: &str) -> Option<(GenFn, ExecFn)> {
         "target" => (target::gen, target::exec),
         "raster" => (raster::gen, raster::exec),
         "clip" => (clip::gen, clip::exec),
+        "pipe" => (pipe::gen, pipe::exec),
         _ => return None,
     })
 }
